@@ -358,6 +358,10 @@ class GValid:
                     cx.features.add("rename_in_choice")
                 items += tail
                 alts.append(concat(*items))
+            if rng.random() < 0.2:
+                # last alternative that can match the empty word (taken after an abandoned attempt without consuming anything)
+                alts[-1] = opt(concat(self._lead(), self._tok())) if rng.random() < 0.5 else opt(self._lead())
+                cx.features.add("choice_nullable_last")
             cx.features.add("choice")
             return choice(*alts)
         finally:
